@@ -41,6 +41,7 @@ func c01(c *core.Check) {
 	c01NilImplementations(c)
 	c01NilResults(c)
 	c01ErrorNotPanic(c)
+	c01RangeIndexSlices(c)
 	c01OrderedSlices(c)
 
 	p := c.Prog
